@@ -36,7 +36,8 @@ _RH = ["x-a", "x-b", "content-type", "set-cookie", "cache-control", "x-long-head
 
 
 def gen_resp(rng, tag, tier, h2, method):
-    status = rng.choice(STATUSES)
+    # "exactly for ... 204/304": every other final status keeps its body - neighbours of the special ones and arbitrary codes
+    status = rng.choice(STATUSES) if rng.random() < 0.6 else rng.choice([202, 203, 205, 205, 207, 300, 302, 303, 305, 307, 400, 416, rng.randrange(200, 600)])
     nchunks = rng.choice([0, 1, 1, 2, 3, 6, 15])
     sizes = []
     big = [16383, 16384, 16385, 65535, 65536, 70000] + ([1 << 20, 300000] if tier == "thorough" else [200000])
